@@ -71,11 +71,8 @@ func rangeOracle(size int64, h string) rangeVerdict {
 	}
 	fs, ls := spec[:i], spec[i+1:]
 	if strings.ContainsAny(spec, "+") {
-		v := rangeOracle(size, "bytes="+strings.ReplaceAll(spec, "+", ""))
-		if v.kind == "416" {
-			return rangeVerdict{kind: "416", class: "sign"}
-		}
-		return rangeVerdict{kind: "either416", alt: &v, class: "sign"}
+		// a byte position is 1*DIGIT: a signed number is malformed
+		return rangeVerdict{kind: "416", class: "sign"}
 	}
 	sz := big.NewInt(size)
 	if fs == "" {
@@ -245,7 +242,7 @@ func runC11(c *Ctx) {
 	specials := []string{"bytes=", "bytes=-", "bytes=--", "bytes=---", "bytes=abc", "bytes=1", "bytes=a-b", "bytes=1-b", "bytes=a-2",
 		"bytes=0x1-2", "bytes=1.5-2", "bytes=1-2-3", "bytes=--1", "bytes=-1-", "bytes=-1--2", "bytes", "bytes:0-1", "byte=0-1", "BYTES=0-1",
 		"items=0-1", "0-1", "=0-1", "bytes=0-1;", "bytes= 0-1", "bytes=0-1 ", "bytes=0 -1", "bytes=0- 1", "bytes=\t0-1", "bytes=0-1\t", "bytes= -1", "bytes=- 1",
-		"bytes=+0-1", "bytes=0-+1", "bytes=-+1", "bytes=+0-", "bytes=00-01", "bytes=000000000000000000000-000000000000000000001",
+		"bytes=+0-1", "bytes=0-+1", "bytes=-+1", "bytes=+0-", "bytes=0--0", "bytes=00--00", "bytes=0--1", "bytes=1--0", "bytes=--0", "bytes=-+0", "bytes=+1-+2", "bytes=00-01", "bytes=000000000000000000000-000000000000000000001",
 		"bytes=0-0,1-1", "bytes=0-1,", "bytes=,0-1", "bytes=0-,-1", "bytes=0-0, 2-2", "bytes=,", "bytes=0-1,abc",
 		"bytes=0-2147483646", "bytes=0-2147483647", "bytes=0-2147483648", "bytes=0-4294967295", "bytes=0-4294967296", "bytes=1-4294967296",
 		"bytes=2147483647-", "bytes=2147483648-", "bytes=4294967296-", "bytes=-2147483648", "bytes=-4294967296",
